@@ -102,6 +102,7 @@ type rCase struct {
 	mixNames       bool   // consecutive runs on one metrics instance use different scenario names
 	scnName        string // scenario name of this run ("" = scn)
 	failSetupOnRun int    // consecutive runs on one metrics instance: the setup of this run (1-based) fails
+	lateFailUs     int64  // a goroutine started by the body marks the handle failed this long after the body returned
 	asyncFail      bool   // light runs: a goroutine of the scenario marks the iteration failed just as its body returns
 	helperEvery    int    // every helperEvery-th body works in a helper goroutine guarded by testing.CheckResults(t, done) that panics
 	failEarly      bool   // planned failures are marked at the START of the body (the flag must survive until the body ends)
@@ -497,13 +498,25 @@ func runOne(c *ctx, rc rCase, m *metrics.Metrics) rTrace {
 			if rc.failEarly && out == 1 && !pan {
 				t.Fail()
 			}
+			if rc.lateFailUs > 0 {
+				bodyDone := make(chan struct{})
+				defer close(bodyDone)
+				go func() {
+					<-bodyDone
+					time.Sleep(time.Duration(rc.lateFailUs) * time.Microsecond)
+					t.Fail() // an asynchronous check reporting after its iteration is over
+				}()
+			}
 			if rc.cfg.Rendezvous {
+				// `arrived` counts the bodies waiting here AT THE SAME TIME: the rendezvous completes only when `conc` of
+				// them overlap (a body that gives up leaves again)
 				if arrived.Add(1) >= int64(rc.cfg.Conc) {
 					rvOnce.Do(func() { close(rvDone) })
 				}
 				select {
 				case <-rvDone:
-				case <-time.After(3 * time.Second):
+				case <-time.After(1500 * time.Millisecond):
+					arrived.Add(-1)
 				}
 				time.Sleep(2 * time.Millisecond)
 			}
@@ -881,6 +894,23 @@ func buildCases(c *ctx) []rCase {
 			}
 			return rateTrigger(r, w), nil
 		}, bodyMaxUs: 30000})
+	// a profile that dips BELOW zero (negative stage targets are accepted): a negative tick requests nothing
+	add(rCase{cfg: rCfg{Name: "staged-negative-middle", Mode: "staged", RateMode: true, Conc: 3, MaxDurUs: 2000 * ms, IntervalUs: 20 * ms, Args: "0s:5,60ms:-5,80ms:-5,100ms:5"},
+		build: func(w func(api.RateFunction) api.RateFunction) (*api.Trigger, error) {
+			r, err := staged.CalculateStagedRate(0, 20*time.Millisecond, "0s:5,60ms:-5,80ms:-5,100ms:5", "none", nil)
+			if err != nil {
+				return nil, err
+			}
+			return rateTrigger(r, w), nil
+		}, bodyMaxUs: 3000})
+	// a late report: a goroutine of iteration N marks the handle failed well after N has returned and long before the
+	// same worker's next iteration starts (one worker, 400 ms between requests, report at +25 ms): N+1 starts clean
+	{
+		rc := constantCase("late-report", "1/400ms", 400*ms, 1, 0, 1500*ms, "none")
+		rc.bodyMaxUs = 1000
+		rc.lateFailUs = 25000
+		add(rc)
+	}
 	// negative replay of the RunLifecycle wedge (Mut_RunLifecycle_StopNoWait): the first progress tick (1 s) is due when the
 	// run ends; it is parked until main holds Summary's read lock. If Stop() really waits this is unrealisable.
 	{
@@ -985,7 +1015,8 @@ func buildCases(c *ctx) []rCase {
 	}
 	// --- all workers usable (C04 lower bound): rendezvous of `conc` bodies
 	for _, conc := range []int{2, 5, 16, 40} {
-		rv := constantCase("rendezvous-constant", fmt.Sprintf("%d/400ms", conc+c.rng.Intn(3)), 400*ms, conc, 0, 600*ms, "none")
+		// (requests per tick: exactly conc, or a few more - not a multiple of conc)
+		rv := constantCase("rendezvous-constant", fmt.Sprintf("%d/400ms", conc+[]int{0, 1, 2, conc/2 + 1}[(conc+int(c.seed))%4]), 400*ms, conc, 0, 300*ms, "none") // one tick only: the requests of THAT tick must occupy every worker
 		rv.cfg.Rendezvous = true
 		add(rv)
 		ru := rCase{cfg: rCfg{Name: "rendezvous-users", Mode: "users", Conc: conc, MaxDurUs: 300 * ms, Rendezvous: true},
